@@ -196,14 +196,6 @@ def observe(case, want_admitted=True):
             obs['exc'] = {'type': 'NotAList:' + type(res).__name__, 'site': 'return', 'msg': ''}
             return obs
         obs['par_changed'] = dataclasses.asdict(par) != before
-        if case.get('caller_edits_parameters_after'):
-            # caller-side action: the score tuples are read first, then the caller re-uses HIS parameter object for the next
-            # task (edits its fields), and only then looks at the diagnostics of the designs he was given
-            pinned = [tuple(d.score.score) for d in res]
-            par.min_corr, par.sig_level, par.power_level, par.flevel = 0.99, 0.6, 0.55, 0.97
-            par.n_test = par.n_test + 2
-            par.rho_max, par.iroas = 0.9, par.iroas * 3.0
-            del pinned
         obs['designs'] = [extract_design(d) for d in res]
         obs['stage'] = 'done'
     except DataStageError as e:
